@@ -307,6 +307,7 @@ APP_RUN_KEYS = [
     "plot_xyz_realistic", "plot_multi_cmap", "plot_seaborn_palette",
     "plot_trajectory_alpha", "plot_show_axis", "plot_mode_default",
     "plot_reference_linestyle", "plot_trajectory_linestyle",
+    "save_traj_in_zip",
 ]
 
 # names that are not among the settings keys: free ones, option names of the
@@ -915,7 +916,7 @@ class C18(Check):
                 # against the same run with those values stored
                 app = rng.choice(["res", "res", "res", "traj", "traj", "traj",
                                   "ape", "rpe"])
-                plots = app in ("ape", "rpe") or rng.random() < 0.2
+                plots = rng.random() < (0.5 if app in ("ape", "rpe") else 0.2)
                 pool = APP_RUN_KEYS if rng.random() < 0.7 else keys
                 overrides = {}
                 for k in rng.sample(pool, rng.randint(1, 3)):
@@ -1553,8 +1554,10 @@ class C18(Check):
                 f"{OUT}/table"],
         "traj": ["tum", f"{DATA}/a.txt", f"{DATA}/b.txt", "--save_table",
                  f"{OUT}/table"],
-        "ape": ["tum", f"{DATA}/a.txt", f"{DATA}/b.txt"],
-        "rpe": ["tum", f"{DATA}/a.txt", f"{DATA}/b.txt"],
+        "ape": ["tum", f"{DATA}/a.txt", f"{DATA}/b.txt", "--save_results",
+                f"{OUT}/result.zip"],
+        "rpe": ["tum", f"{DATA}/a.txt", f"{DATA}/b.txt", "--save_results",
+                f"{OUT}/result.zip"],
     }
 
     def _real_run(self, sim, app, plots, config):
@@ -1566,7 +1569,7 @@ class C18(Check):
                 fs.make_dirs(DATA)
                 fs.write_bytes(path, data)
         argv = list(self.APP_ARGV[app]) + ["--no_warnings"]
-        if plots or app in ("ape", "rpe"):
+        if plots:
             argv += ["--save_plot", f"{OUT}/plot.png"]
         if config:
             argv += ["-c", config]
@@ -1575,7 +1578,19 @@ class C18(Check):
         for path in sorted(fs.ents):
             if path.startswith(OUT + "/"):
                 data = fs.read_bytes(path)
-                if data is not None:
+                if data is not None and path.endswith(".zip"):
+                    # an archive carries the (simulated) time of its creation:
+                    # compared member by member
+                    import io
+                    import zipfile
+                    try:
+                        with zipfile.ZipFile(io.BytesIO(data)) as z:
+                            for name in sorted(z.namelist()):
+                                outs[path[len(OUT) + 1:] + ":" + name] = (
+                                    z.read(name))
+                    except zipfile.BadZipFile:
+                        outs[path[len(OUT) + 1:]] = data
+                elif data is not None:
                     outs[path[len(OUT) + 1:]] = data
         fs.remove_tree(OUT)
         outcome = (r.get("exc_type") or (
@@ -1614,14 +1629,12 @@ class C18(Check):
             stored = json.loads(orig)
         except ValueError:
             return None
-        if plots or app in ("ape", "rpe"):
+        if plots:
             eff = dict(stored)
             eff.update(overrides)
             if not (plot_run_affordable(stored) and plot_run_affordable(eff)):
                 # e.g. a figure of 1e9 x 1e9 inches: rendering is out of reach
                 sim.probe("real_run_skipped_unaffordable_plot_settings")
-                if app in ("ape", "rpe"):
-                    return None
                 plots = False
         cfg_path = f"{DATA}/override.json"
         fs.make_dirs(DATA)
@@ -1776,6 +1789,8 @@ class C18(Check):
                 ("traj", True, {"plot_figsize": [4, 3]}),
                 ("ape", True, {"plot_fontfamily": "serif"}),
                 ("rpe", True, {"plot_seaborn_style": "whitegrid"}),
+                ("ape", False, {"save_traj_in_zip": True}),
+                ("rpe", False, {"save_traj_in_zip": True}),
                 ("traj", True, {"plot_mode_default": "xy"}),
                 ("ape", True, {"plot_mode_default": "xz"}),
         ):
